@@ -254,7 +254,7 @@ func (e *Engine) rebind(fc *FuncContract, res *FuncResult, accept func(*FuncResu
 			// a range loop rewritten as an index loop: the hidden index of the range loop is the loop counter minus one
 			cands = nil
 			for _, n := range localNames(fn) {
-				if typeOf[n] == "int" {
+				if typeOf[n] == "int" && n != "rangeindex" {
 					cands = append(cands, n+"-1")
 				}
 			}
